@@ -17,6 +17,9 @@ PROPS = {
     "C14": dict(mode="crash", trace=["C14_FsDiscipline"]),
     "C20": dict(mode="fault", trace=["C20_FaultContained"]),
 }
+# used by lib/storage.py for C05 (a merge pass that FAILS also leaves every key reading as before); not in
+# PROPS, which says which properties this module's check() decides
+EXTRA = {"C05": dict(mode="fault", trace=["C05_FailedMergeKeeps"])}
 
 TRACE_TMPL = """SPECIFICATION Spec
 INVARIANTS
@@ -252,7 +255,8 @@ def classify_known(prop, why, run_events):
 
 
 def validate(v, prop, files, tag):
-    cfg = write_cfg(f"tracefs_{prop}_{tag}.cfg", TRACE_TMPL.format(invs=" ".join(PROPS[prop]["trace"])))
+    P = PROPS.get(prop) or EXTRA[prop]
+    cfg = write_cfg(f"tracefs_{prop}_{tag}.cfg", TRACE_TMPL.format(invs=" ".join(P["trace"])))
 
     def one(f):
         return f, tlc("TraceFs.tla", cfg, workers=1, env={"TRACE": f, "JAVA_TOOL_OPTIONS": JAVA_OPTS_TRACE},
@@ -306,7 +310,7 @@ def validate(v, prop, files, tag):
             if evs and evs[0].get("ops"):
                 ops = evs[0]["ops"]    # the whole behaviour, wall-clock steps included
             payload = {"property": prop, "invariant": r.violated, "why": why, "trace_file": f, "line": line, "run": run_id,
-                       "seed": seed(), "header": hdr, "mode": PROPS[prop]["mode"],
+                       "seed": seed(), "header": hdr, "mode": P["mode"],
                        "behaviour": {"cfg": evs[0].get("cfg") if evs else None, "ops": ops},
                        "fault": {k: evs[0].get(k) for k in ("fault", "errno") if evs and k in evs[0]},
                        "events_tail": [{k: e[k] for k in e if k not in ("st",)} for e in evs[-8:]]}
